@@ -65,6 +65,10 @@ def obligations(ctx):
     for r_ in c08.temporal_minmax(ctx):
         r_.id = "B-3"
         out.append(r_)
+    # ... and so is the rule that an index pruner answers Some(zones) only after consulting the index (= C08 B-8)
+    for r_ in c08.pruner_answers(ctx):
+        r_.id = "B-8"
+        out.append(r_)
     return out
 
 
